@@ -111,6 +111,28 @@ Addr1 == {Sender, Receiver, MyParty, Pol}
 Signer1 == {Sender, MyParty, Hex(KeyHash)}
 Ref1 == {[k |-> "utxo_ref", txid |-> [i \in 1..32 |-> 7], index |-> 2]}
 
+\* ---- chain-specific blocks --------------------------------------------------------
+PlutusScriptBytes == <<81, 1, 1, 0, 35, 37, 152, 0, 165, 24, 164, 209, 54, 86, 64, 4, 174, 105>>     \* 0x5101010023259800a518a4d136564004ae69
+NativeScriptBytes == <<130, 1, 129, 130, 4, 0>>                                                     \* 0x820181820400: all [ after slot 0 ]
+StakeKeyAddr == <<224>> \o [i \in 1..28 |-> 7]
+StakeScriptAddr == <<240>> \o [i \in 1..28 |-> 8]
+BaseAddr == <<0>> \o [i \in 1..28 |-> 81] \o [i \in 1..28 |-> 9]
+BaseScriptStakeAddr == <<32>> \o [i \in 1..28 |-> 81] \o [i \in 1..28 |-> 10]
+DRepHash == [i \in 1..28 |-> 51]
+Donation(e) == [k |-> "donation", coin |-> e]
+PlutusW(v, scr) == [k |-> "plutus_witness", version |-> v, script |-> scr]
+NativeW(scr) == [k |-> "native_witness", script |-> scr]
+Publish(to, amount, datum, version, script) == [k |-> "publish", to |-> to, amount |-> amount, datum |-> datum, version |-> version, script |-> script]
+VoteDeleg(drep, stake) == [k |-> "vote_deleg", drep |-> drep, stake |-> stake]
+Witness1 == {PlutusW(Lit(v), Hex(PlutusScriptBytes)) : v \in {1, 2, 3}} \cup {PlutusW(PM, Hex(PlutusScriptBytes)), PlutusW(Lit(3), PB),
+             NativeW(Hex(NativeScriptBytes))}
+Publish1 == {Publish(to, amt, dat, ver, scr) :
+                to \in {Receiver, Pol}, amt \in {AdaE(PN), Op("add", AdaE(PN), TokE(Lit(2)))}, dat \in {Absent, RecAll},
+                ver \in {Absent, Lit(3), Lit(2), PM}, scr \in {Absent, Hex(PlutusScriptBytes)}}
+            \cup {Publish(Receiver, AdaE(PN), Absent, Lit(0), Hex(NativeScriptBytes)), Publish(Receiver, AdaE(PN), Absent, Lit(1), PB)}
+VoteDeleg1 == {VoteDeleg(Hex(DRepHash), Hex(a)) : a \in {StakeKeyAddr, StakeScriptAddr, BaseAddr, BaseScriptStakeAddr}}
+              \cup {VoteDeleg(Hex(DRepHash), Sender), VoteDeleg(PB, Hex(StakeKeyAddr)), VoteDeleg(Hex(<<1, 2, 3>>), Hex(StakeKeyAddr))}
+
 \* ---- the base transaction and its slots ------------------------------------------
 Inp(name, many, from, min, ref, red, dis) ==
     [name |-> name, key |-> name, many |-> many, from |-> from, min_amount |-> min, ref |-> ref, redeemer |-> red, datum_is |-> dis]
@@ -121,7 +143,7 @@ BaseTx == [params |-> Params,
            inputs |-> <<BaseInput>>,
            outputs |-> <<Out("", FALSE, Receiver, AdaE(PN), Absent)>>,
            mints |-> <<>>, burns |-> <<>>, validity |-> Absent, signers |-> Absent, metadata |-> Absent,
-           references |-> <<>>, collateral |-> Absent, withdrawals |-> <<>>]
+           references |-> <<>>, collateral |-> Absent, withdrawals |-> <<>>, cardano |-> <<>>]
 
 \* base for the boundary slots: nothing but the varied slot depends on n
 BaseB == [BaseTx EXCEPT !.inputs = <<[BaseInput EXCEPT !.min_amount = AdaE(Lit(1))]>>,
@@ -141,6 +163,16 @@ SlotUniverse(s) ==
       [] s = "meta_value" -> Bytes1 \cup Str1 \cup (IF Depth = 0 THEN Int0 ELSE Int1)
       [] s = "reference" -> Ref1
       [] s = "min_amount" -> {AdaE(PN), Op("add", AdaE(PN), FeesE), Op("add", AdaE(PN), TokE(Lit(1))), TokE(Lit(2))}
+      \* ---- chain-specific blocks: the slot value is the block (or, for a donation, its coin expression)
+      \* (the analyzer type-checks the coin and infers no type for env names, locals and built-in calls: left out, as for metadata labels)
+      [] s = "donation" -> {Lit(7), PN, PM} \cup {Op(o, a, b) : o \in {"add", "sub"}, a \in {PN, Lit(7)}, b \in {PM, Lit(2)}}
+                           \cup {Op("sub", Op("sub", PN, PM), Lit(2)), Op("sub", PN, Paren(Op("sub", PM, Lit(2)))), Op("add", PN, Op("sub", PM, Lit(2)))}
+      [] s = "witness" -> Witness1
+      [] s = "two_witnesses" -> {<<a, b>> : a \in Witness1, b \in {PlutusW(Lit(3), Hex(<<81, 1, 1, 0>>)), NativeW(Hex(NativeScriptBytes)), PlutusW(Lit(2), Hex(PlutusScriptBytes))}}
+      [] s = "publish" -> Publish1
+      [] s = "vote_deleg" -> VoteDeleg1
+      [] s = "b_donation" -> {PN, Op("add", PN, PM), Op("sub", PN, PM), U("neg", PN)}
+      [] s = "b_publish" -> {AdaE(PN), Op("sub", AdaE(PN), AdaE(PM)), TokE(PN), Op("add", AdaE(Lit(1000000)), TokE(PN))}
       [] s = "mint_burn" -> {TokE(Lit(3)), TokE(PN), AnyA(Hex(H2), Str(<<98>>), Lit(5))}
       \* ---- C02: every numeric ledger field x the expression shapes that produce it
       [] s = "b_out_amount" -> {AdaE(PN), Op("add", AdaE(PN), AdaE(PM)), Op("sub", AdaE(PN), AdaE(PM)), AdaE(Op("add", PN, PM)),
@@ -149,7 +181,7 @@ SlotUniverse(s) ==
                                 Op("sub", Op("sub", Source, AdaE(PN)), FeesE), Op("sub", Source, TokE(PN))}
       [] s \in {"b_mint", "b_burn"} -> {TokE(PN), TokE(Op("sub", PN, PM)), TokE(Op("add", PN, PM)), AnyA(Hex(H2), Str(<<98>>), U("neg", PN))}
       \* the mint field aggregates blocks: two mints of one asset, a mint and a burn of it, the same over two assets of a policy
-      [] s \in {"b_mint2", "b_mint_burn", "b_burn2"} -> {TokE(PN), Op("add", TokE(PN), AnyA(Hex(H1), Str(<<98>>), PN)), AnyA(Hex(H2), Str(<<98>>), PN)}
+      [] s \in {"b_mint2", "b_mint_burn", "b_burn2", "b_mint3"} -> {TokE(PN), Op("add", TokE(PN), AnyA(Hex(H1), Str(<<98>>), PN)), AnyA(Hex(H2), Str(<<98>>), PN)}
       [] s \in {"b_since", "b_until"} -> {PN, Op("add", PN, PM), Op("sub", PN, PM), U("neg", PN)}
       [] s = "b_meta_value" -> {PN, Op("add", PN, PM), U("neg", PN)}
       [] s = "b_meta_key" -> {PN}
@@ -188,6 +220,9 @@ WithSlot(s, e) ==
       [] s = "b_burn" -> [BaseB EXCEPT !.burns = <<[amount |-> e, redeemer |-> Absent]>>]
       [] s = "b_mint2" -> [BaseB EXCEPT !.mints = <<[amount |-> e, redeemer |-> Absent], [amount |-> SameClassAs(e, PM), redeemer |-> Absent]>>]
       [] s = "b_burn2" -> [BaseB EXCEPT !.burns = <<[amount |-> e, redeemer |-> Absent], [amount |-> SameClassAs(e, PM), redeemer |-> Absent]>>]
+      \* two mints of n and a burn of n + Mixed: the partial sum 2n may leave the field although the net n - Mixed fits
+      [] s = "b_mint3" -> [BaseB EXCEPT !.mints = <<[amount |-> e, redeemer |-> Absent], [amount |-> e, redeemer |-> Absent]>>,
+                                        !.burns = <<[amount |-> SameClassAs(e, Op("add", PN, PM)), redeemer |-> Absent]>>]
       [] s = "b_mint_burn" -> [BaseB EXCEPT !.mints = <<[amount |-> e, redeemer |-> Absent]>>,
                                             !.burns = <<[amount |-> SameClassAs(e, PM), redeemer |-> Absent]>>]
       [] s = "b_since" -> [BaseB EXCEPT !.validity = [k |-> "some", since |-> e, until |-> Absent]]
@@ -203,6 +238,13 @@ WithSlot(s, e) ==
                                      THEN <<[amount |-> TokE(Lit(3)), redeemer |-> Absent]>> ELSE <<>>,
                            !.burns = IF e = Op("sub", Op("sub", Op("sub", Source, AdaE(PN)), TokE(Lit(2))), FeesE)
                                      THEN <<[amount |-> TokE(Lit(2)), redeemer |-> Absent]>> ELSE <<>>]
+      [] s = "donation" -> [BaseTx EXCEPT !.cardano = <<Donation(e)>>]
+      [] s = "witness" -> [BaseTx EXCEPT !.cardano = <<e>>, !.mints = <<[amount |-> TokE(Lit(3)), redeemer |-> [k |-> "unit"]]>>]
+      [] s = "two_witnesses" -> [BaseTx EXCEPT !.cardano = e]
+      [] s = "publish" -> [BaseTx EXCEPT !.cardano = <<e, Publish(Sender, AdaE(Lit(1500000)), Absent, Absent, Absent)>>]
+      [] s = "vote_deleg" -> [BaseTx EXCEPT !.cardano = <<e>>]
+      [] s = "b_donation" -> [BaseB EXCEPT !.cardano = <<Donation(e)>>]
+      [] s = "b_publish" -> [BaseB EXCEPT !.cardano = <<Publish(Receiver, e, Absent, Absent, Absent)>>]
       [] s = "min_amount" -> [BaseTx EXCEPT !.inputs = <<[BaseInput EXCEPT !.min_amount = e]>>,
                                             !.collateral = [k |-> "some", from |-> Sender, min_amount |-> AdaE(Lit(5)), ref |-> Absent]]
 
